@@ -335,7 +335,8 @@ def run(ctx):
         if len(js) == 1:
             a = K.arg_renders(js[0])
             detail = a
-            ok = a[0] == "^base" and re.match(r"^FileAndHash::into_pair\(item\)\.0$", a[1]) is not None
+            # the joined name is the entry handed to the closure (its element parameter, whatever it is called)
+            ok = a[0] == "^base" and iu.arg_count == 2 and K.alpha(a[1], iu) == "FileAndHash::into_pair(%2).0"
         ctx.ob("R-FLOW", "iter_uris:join(base, entry name)", ok,
                "iter_uris joins exactly the entry's (validated) file name onto the caller's base URI", where=iu.loc, detail=detail)
 
